@@ -1708,7 +1708,9 @@ class ObjectUpdateCompressedDataSerializer(se.SimpleSubfieldSerializer):
         "SoundGain": CompressedOption(CompressedFlags.SOUND, se.F32),
         "SoundFlags": CompressedOption(CompressedFlags.SOUND, se.IntFlag(SoundFlags, se.U8)),
         "SoundRadius": CompressedOption(CompressedFlags.SOUND, se.F32),
-        "NameValue": CompressedOption(CompressedFlags.NAME_VALUES, NAMEVALUES_TERMINATED_TEMPLATE),
+        # Presence is decided by the flag, an empty NameValue still has its terminator
+        "NameValue": CompressedOption(CompressedFlags.NAME_VALUES, se.TypedBytesTerminated(
+            NameValuesSerializer, terminators=(b"\x00",), empty_is_none=True, none_writes_terminator=True)),
         # Intentionally not de-quantizing to preserve their real ranges.
         "PathCurve": se.U8,
         "ProfileCurve": se.U8,
